@@ -559,7 +559,9 @@ def generic_visit(ex, obj, cc, x, line):
             obj.attrs[attr] = eval_spec_expr(ex, expr, env)
         _havoc_visit_globals(ex, cc, line)
         env["result"] = r
-        for e_ in cc.get("generic_ensures", []):
+        # "generic_ensures_here": facts of the library's generic_visit that only this method needs
+        # (kept out of the class-wide list so that the other methods' queries stay as they were)
+        for e_ in cc.get("generic_ensures", []) + ex.contract.get("generic_ensures_here", []):
             ex.assume(ex.to_bool(eval_spec_expr(ex, e_, env)))
         ex._inplace_generic = True
         return r
